@@ -34,6 +34,8 @@ func (Prop) SelfTest() error {
 }
 func (Prop) Rule() string {
 	return "One deterministic transcript per configuration (scripted io.Reader: the ephemeral scalar r and the IV are chosen by the case, so every output byte is a function of the case). " +
+		"Argument layout is part of the alphabet: every uid is followed in its own backing array by the live message / peer uid of the same call (record layout), so results must not depend on what lies behind an argument, and no argument may be modified. " +
+		"KDF-alignment sweep: every uid length 0..130 x key lengths in every multi-lane class (97, 225, 260; thorough 33..520) for wrap/unwrap. " +
 		"Completeness, absolute oracle per case: master public keys and user keys = [ks]P / [ks*(H1(ID||hid)+ks)^-1 mod n]P with H1 and the scalar from the reference (G1 by affine big-integer arithmetic); " +
 		"signature (h,S) and its DER encoding = (H2(M||g^r), [(r-h) mod n]ds) recomputed, then re-verified by the pairing equation and accepted by Verify/VerifyASN1; " +
 		"wrapped key C = [r]Q_B, K = KDF(C||g^r||ID, klen) recomputed with the reference SM3-KDF for the full product uid length {0,1,5,55,56,59,60,61,62,63,64,65,127,128,200} x key length {1,16,31,32,33,64,65,66,97,200} (raw, BIT STRING and SM9KeyPackage forms, three unwrap forms); " +
@@ -95,12 +97,59 @@ func rScalars() []*big.Int {
 	return []*big.Int{big.NewInt(1), big.NewInt(2), new(big.Int).Sub(nOrd, one), chain("r0"), chain("r1")}
 }
 
+// argGuards: every uid / message handed to the library is a sub-slice of a larger buffer whose spare capacity holds
+// live (non-zero) bytes, as in a record uid||message; transcript.finish verifies that no call wrote into it or
+// changed the argument itself.
+type argGuard struct {
+	buf  []byte
+	n    int
+	orig []byte
+	what string
+}
+
+var argGuards []argGuard
+
+const guardSpare = 272
+
+func guarded(b []byte, what string) []byte {
+	buf := make([]byte, len(b)+guardSpare)
+	copy(buf, b)
+	for i := len(b); i < len(buf); i++ {
+		buf[i] = 0xE1 ^ byte(i)
+	}
+	argGuards = append(argGuards, argGuard{buf: buf, n: len(b), orig: append([]byte{}, b...), what: what})
+	return buf[:len(b):len(buf)]
+}
+
+func checkArgGuards(t *engine.T) {
+	for _, g := range argGuards {
+		if !bytes.Equal(g.buf[:g.n], g.orig) {
+			t.Fail("caller-memory/"+g.what+"-modified", "a %s argument of %d bytes was modified by the library: %x -> %x", g.what, g.n, g.orig, g.buf[:g.n])
+		}
+		// writes into the spare capacity are not judged by themselves (padding in place is append-like); what is
+		// judged is the property-level effect when another live argument of the same call sits there: see after().
+	}
+	argGuards = argGuards[:0]
+}
+
+// after places a copy of m directly behind uid in uid's own backing array (record layout uid||m) and returns that
+// copy, so that a library call receiving both sees two adjacent live arguments. The expected values are always
+// computed from the original m.
+func after(uid, m []byte) []byte {
+	if len(m) == 0 || len(m) > cap(uid)-len(uid) {
+		return m
+	}
+	t := uid[len(uid) : len(uid)+len(m) : len(uid)+len(m)]
+	copy(t, m)
+	return t
+}
+
 func uidOf(n int) []byte {
 	b := make([]byte, n)
 	for i := range b {
 		b[i] = byte(0x41 + (i*7+n*3)%53)
 	}
-	return b
+	return guarded(b, "uid")
 }
 
 func msgOf(n int) []byte {
@@ -108,7 +157,7 @@ func msgOf(n int) []byte {
 	for i := range b {
 		b[i] = byte(i*11+n*5+3) ^ byte(i>>8)
 	}
-	return b
+	return guarded(b, "message")
 }
 
 func unhex(s string) []byte {
@@ -147,6 +196,7 @@ func (d *transcript) addBool(label string, v bool) {
 }
 func (d *transcript) addErr(label string, err error) { d.addBool(label, err == nil) }
 func (d *transcript) finish(t *engine.T) {
+	checkArgGuards(t)
 	t.Outcome(t.Name + ":" + hex.EncodeToString(d.h.Sum(nil)))
 	t.Extra("transcript_cases", 1)
 	t.Extra("transcript_outputs", d.n)
@@ -173,6 +223,7 @@ func eq(t *engine.T, key string, got, want []byte, format string, a ...any) bool
 func (Prop) Run(c *engine.Ctx) {
 	runStandard(c)
 	runWrapProduct(c)
+	runKdfAlignmentSweep(c)
 	runEncXorProduct(c)
 	runEncModes(c)
 	runSign(c)
